@@ -23,15 +23,30 @@ double v_sqrt_uf(double x) { return __builtin_sqrt(x); }
 // C20 native confirmation: byte snapshot of the registered object and of every heap block allocated before the epoch;
 // at the end of the epoch any changed byte (or a block freed meanwhile) is a write to shared state by a read-only operation.
 void v_register_shared(const void *p, unsigned long n);
+void v_register_scratch(const void *p, unsigned long n);
 void v_epoch_mark();
 void v_epoch_end();
 }
 #include <new>
+extern "C" char __data_start, _end;   // static storage of the executable (.data + .bss): function-local statics and globals of the real sources live here
 namespace {
 struct Blk { void *p; size_t n; bool freed; };
-Blk g_blk[100000]; size_t g_nblk = 0; bool g_epoch = false; size_t g_epoch_n = 0;
-const void *g_sh[8]; size_t g_shn[8]; size_t g_nsh = 0;
-unsigned char *g_copy = nullptr;
+// all state of this runtime that changes during an epoch lives in ONE object so that it can be excluded from the static-storage comparison
+struct RtState {
+  Blk blk[100000]; size_t nblk = 0; bool epoch = false; size_t epoch_n = 0;
+  const void *sh[8]; size_t shn[8]; size_t nsh = 0;
+  const void *scratch[8]; size_t scratchn[8]; size_t nscratch = 0;
+  unsigned char *copy = nullptr; unsigned char *statics = nullptr; size_t statics_n = 0;
+};
+RtState g_rt;
+#define g_blk g_rt.blk
+#define g_nblk g_rt.nblk
+#define g_epoch g_rt.epoch
+#define g_epoch_n g_rt.epoch_n
+#define g_sh g_rt.sh
+#define g_shn g_rt.shn
+#define g_nsh g_rt.nsh
+#define g_copy g_rt.copy
 }
 void *operator new(size_t n) { void *p = malloc(n ? n : 1); if (!p) abort(); if (!g_epoch && g_nblk < 100000) g_blk[g_nblk++] = Blk{p, n, false}; return p; }
 void *operator new[](size_t n) { return operator new(n); }
@@ -44,8 +59,23 @@ void operator delete(void *p) noexcept { v_del(p); }
 void operator delete[](void *p) noexcept { v_del(p); }
 void operator delete(void *p, size_t) noexcept { v_del(p); }
 void operator delete[](void *p, size_t) noexcept { v_del(p); }
+// reads across the redzones between globals: not instrumented, no intercepted libc calls
+__attribute__((no_sanitize("address", "undefined"))) static void raw_copy(unsigned char *d, const unsigned char *s, size_t n) { for (size_t i = 0; i < n; ++i) d[i] = s[i]; }
+__attribute__((no_sanitize("address", "undefined"))) static long raw_diff(const unsigned char *a, const unsigned char *b, size_t n, bool (*skip)(const unsigned char *)) {
+  for (size_t i = 0; i < n; ++i) if (a[i] != b[i] && !skip(a + i)) return (long)i;
+  return -1;
+}
+static bool statics_skipped(const unsigned char *a) {
+  if (a >= (const unsigned char *)&g_rt && a < (const unsigned char *)(&g_rt + 1)) return true;
+  if (a >= (const unsigned char *)&g_vals && a < (const unsigned char *)(&g_vals + 1)) return true;
+  if (a >= (const unsigned char *)&g_pos && a < (const unsigned char *)(&g_pos + 1)) return true;
+  if (a >= (const unsigned char *)&g_fail && a < (const unsigned char *)(&g_fail + 1)) return true;
+  for (size_t i = 0; i < g_rt.nscratch; ++i) if (a >= (const unsigned char *)g_rt.scratch[i] && a < (const unsigned char *)g_rt.scratch[i] + g_rt.scratchn[i]) return true;
+  return false;
+}
 extern "C" {
 void v_register_shared(const void *p, unsigned long n) { if (g_nsh < 8) { g_sh[g_nsh] = p; g_shn[g_nsh++] = n; } }
+void v_register_scratch(const void *p, unsigned long n) { if (g_rt.nscratch < 8) { g_rt.scratch[g_rt.nscratch] = p; g_rt.scratchn[g_rt.nscratch++] = n; } }
 void v_epoch_mark() {
   g_epoch_n = g_nblk; size_t tot = 0;
   for (size_t i = 0; i < g_nsh; ++i) tot += g_shn[i];
@@ -53,12 +83,20 @@ void v_epoch_mark() {
   g_copy = (unsigned char *)malloc(tot ? tot : 1); size_t o = 0;
   for (size_t i = 0; i < g_nsh; ++i) { memcpy(g_copy + o, g_sh[i], g_shn[i]); o += g_shn[i]; }
   for (size_t i = 0; i < g_epoch_n; ++i) if (!g_blk[i].freed) { memcpy(g_copy + o, g_blk[i].p, g_blk[i].n); o += g_blk[i].n; }
+  // static storage of the executable (the harness' registered scratch objects and this runtime's own state are skipped when comparing)
+  g_rt.statics_n = (size_t)(&_end - &__data_start);
+  g_rt.statics = (unsigned char *)malloc(g_rt.statics_n);
+  raw_copy(g_rt.statics, (const unsigned char *)&__data_start, g_rt.statics_n);
   g_epoch = true;
 }
 void v_epoch_end() {
   g_epoch = false; size_t o = 0; bool changed = false;
   for (size_t i = 0; i < g_nsh; ++i) { if (memcmp(g_copy + o, g_sh[i], g_shn[i])) changed = true; o += g_shn[i]; }
   for (size_t i = 0; i < g_epoch_n; ++i) { if (g_blk[i].freed) continue; if (memcmp(g_copy + o, g_blk[i].p, g_blk[i].n)) changed = true; o += g_blk[i].n; }
+  {
+    long off = raw_diff((const unsigned char *)&__data_start, g_rt.statics, g_rt.statics_n, statics_skipped);
+    if (off >= 0) { changed = true; printf("static storage modified at offset %ld of .data/.bss\n", off); }
+  }
   if (changed) { printf("ASSERT-FAIL: C20 read-only operation writes shared mesh state\n"); g_fail = 1; }
 }
 }
